@@ -90,7 +90,24 @@ pub fn run_worker(o: &DumpOpts, release: bool) -> WorkerOutcome {
     run_worker_wall(o, release, WALL_LIMIT_S)
 }
 
+/// requests of this run that did not return (CPU limit / wall watchdog)
+static NON_RETURNS: std::sync::atomic::AtomicU64 = std::sync::atomic::AtomicU64::new(0);
+
 pub fn run_worker_wall(o: &DumpOpts, release: bool, wall_limit_s: u64) -> WorkerOutcome {
+    // every request that does not return costs its full CPU limit: once four of them have been
+    // recorded (as violations, by the callers) the remaining worker requests of the run are not
+    // made - the verdict is settled, and a run that took hours would only end in the driver's watchdog
+    if NON_RETURNS.load(std::sync::atomic::Ordering::SeqCst) >= 4 {
+        return WorkerOutcome::Harness("not run: four earlier requests of this run did not return".into());
+    }
+    let r = run_worker_wall_inner(o, release, wall_limit_s);
+    if matches!(r, WorkerOutcome::CpuLimit | WorkerOutcome::WallTimeout { .. }) {
+        NON_RETURNS.fetch_add(1, std::sync::atomic::Ordering::SeqCst);
+    }
+    r
+}
+
+fn run_worker_wall_inner(o: &DumpOpts, release: bool, wall_limit_s: u64) -> WorkerOutcome {
     let dir = crate::target::new_dir("wk");
     let (op, rp) = (format!("{dir}/opts.json"), format!("{dir}/result.json"));
     std::fs::write(&op, serde_json::to_vec(o).unwrap()).unwrap();
@@ -678,6 +695,7 @@ pub fn run_pure(rep: &mut Report, n: u64) {
             1 => Some("libsoname.so.1".to_string()),
             _ => Some(format!("{}{}", pieces[rng.usize_below(pieces.len())], pieces[rng.usize_below(pieces.len())])),
         };
+        let _w = crate::util::watch_call("effective path / version of a mapping", None);
         let r = std::panic::catch_unwind(|| m.get_mapping_effective_path_name_and_version(soname.clone()).map(|_| ()));
         let v = match r {
             Ok(_) => None,
@@ -716,6 +734,7 @@ pub fn run_pure(rep: &mut Report, n: u64) {
                 }
                 _ => rng.next(),
             };
+            let _w = crate::util::watch_call("stack lookup", None);
             let r = std::panic::catch_unwind(std::panic::AssertUnwindSafe(|| env.dumper.get_stack_info(sp as usize).map(|_| ())));
             out.push((sp, r.err().map(|p| (crate::util::short_loc(&crate::util::last_panic_loc()), crate::util::panic_message(&p)))));
         }
@@ -783,6 +802,7 @@ pub fn run_memory_images(rep: &mut Report, thorough: bool) {
             rep.inconclusive("write to target memory failed".into());
             return;
         }
+        let _w = crate::util::watch_call("ELF identification of an image in target memory", Some(img));
         let r = std::panic::catch_unwind(|| {
             let _ = BuildId::read_from_module(ProcessMemory::Process(ProcessReader::new(t.pid, base as usize)));
             let _ = SoName::read_from_module(ProcessMemory::Process(ProcessReader::new(t.pid, base as usize)));
@@ -797,7 +817,7 @@ pub fn run_memory_images(rep: &mut Report, thorough: bool) {
         }
     };
     for (b64, section_only) in [(true, false), (true, true), (false, false)] {
-        let spec = ElfSpec { bits64: b64, phdr_note: if section_only { None } else { Some((1..=20).collect()) }, section_note: if section_only { Some((1..=20).collect()) } else { None }, soname: Some("libmem.so.1".into()), section_table: true, text: vec![0x90; 64], vaddr_bias: 0, data_pages: 1, empty_first_note: false, text_skew: 0, soname_last: false, dynamic_section_cuts_null: false, big_endian: false };
+        let spec = ElfSpec { bits64: b64, phdr_note: if section_only { None } else { Some((1..=20).collect()) }, section_note: if section_only { Some((1..=20).collect()) } else { None }, soname: Some("libmem.so.1".into()), section_table: true, text: vec![0x90; 64], vaddr_bias: 0, data_pages: 1, empty_first_note: false, text_skew: 0, soname_last: false, dynamic_section_cuts_null: false, big_endian: false, strtab_own_segment: false };
         let built = elf::build(&spec);
         // in memory the section table of `build` lies beyond the loaded segments; here the whole file
         // image is placed in memory, so every table is reachable
@@ -962,7 +982,7 @@ fn unterminated_section_dynamic(rep: &mut Report, thorough: bool, release: bool)
         let dir = b.spec.dir.clone();
         let mut files = Vec::new();
         for (j, b64) in [(0, true), (1, k % 2 == 0)] {
-            let spec = ElfSpec { bits64: b64, phdr_note: Some((1..=20).collect()), section_note: None, soname: None, section_table: true, text: vec![0x90; 64], vaddr_bias: 0, data_pages: 1, empty_first_note: false, text_skew: 0, soname_last: false, dynamic_section_cuts_null: true, big_endian: false };
+            let spec = ElfSpec { bits64: b64, phdr_note: Some((1..=20).collect()), section_note: None, soname: None, section_table: true, text: vec![0x90; 64], vaddr_bias: 0, data_pages: 1, empty_first_note: false, text_skew: 0, soname_last: false, dynamic_section_cuts_null: true, big_endian: false, strtab_own_segment: false };
             scen::add_elf_file(&mut b, &mut rng, &dir, &format!("libnoterm{j}.so"), spec, j == 1 && k % 2 == 1, &mut files);
         }
         b.sentinel(&mut rng, Mode::Pause, &StackShape::default(), None, None);
